@@ -92,7 +92,7 @@ Qed.
 
 (* ---- vocabulary of the invariant -------------------------------------------------------------- *)
 Definition ak_ok (s : st) : Prop :=
-  ak_user s = Some (username s) \/ (ak_user s = None /\ username s = []).
+  ak_user s = key_src w (username s) \/ (ak_user s = None /\ username s = []).
 Definition opts_reset (s : st) : Prop := key_opts s = ko_empty /\ cert_opts s = None.
 
 (* [full] is a well-formed USERAUTH_REQUEST for service ssh-connection whose user name is U after
@@ -120,7 +120,7 @@ Proof. cbn. apply zlist_eqb_refl. Qed.
 (* evaluating a delivered request for the user it names, against that user's keys: if the outcome is
    success then the specification lists it, with the restrictions of that outcome *)
 Lemma auth_start_grants D U mk full body src :
-  head_ok full U mk body -> In full D -> (src = Some U \/ (src = None /\ U = [])) ->
+  head_ok full U mk body -> In full D -> (src = key_src w U \/ (src = None /\ U = [])) ->
   supported w (ak_of w src) mk = true ->
   e_res (snd (auth_start w sid (ak_of w src) U mk full body)) = RsSuccess ->
   In (restr_of (snd (auth_start w sid (ak_of w src) U mk full body))) (grants_via w sid U D full).
@@ -170,7 +170,7 @@ Definition fin_ok (D : list bytes) (s : st) (k : kont) : Prop :=
   | KFin ba mk full body => In full D /\ head_ok full (username s) mk body /\ (ba = false -> ak_ok s)
   | KFinReloaded mk full body => In full D /\ head_ok full (username s) mk body
   | KFinBegun asked mk full body =>
-      asked = username s /\ ak_user s = Some asked /\ In full D /\ head_ok full (username s) mk body
+      asked = username s /\ ak_user s = key_src w asked /\ In full D /\ head_ok full (username s) mk body
   | _ => False
   end.
 
@@ -488,7 +488,7 @@ Proof.
     + intros Hres. exists full. split; [exact Hin|].
       destruct Hak as [Hak|[Hak1 Hak2]].
       * rewrite Hak in *. rewrite <- Hu in *.
-        apply auth_start_grants with (src := Some u); auto.
+        apply auth_start_grants with (src := key_src w u); auto.
       * rewrite Hak1 in *. rewrite <- Hu in Hak2.
         apply auth_start_grants with (src := None); auto.
   - (* KAuthDone *)
@@ -669,7 +669,7 @@ Proof.
     + apply lookup_resume_inv; auto.
   - (* KFinReloaded *)
     destruct Hk as (Hin & Hhd).
-    set (s1 := set_begun (username s :: begun s) (set_ak_user (Some (username s)) s)).
+    set (s1 := set_begun (username s :: begun s) (set_ak_user (key_src w (username s)) s)).
     assert (HB1 : FinBase D s1).
     { unfold s1. unfold FinBase. cbn. repeat (split; [assumption|]).
       eapply done_ok_core; [| | | | | | |exact Hdn]; reflexivity. }
@@ -1033,6 +1033,33 @@ Proof.
   - destruct Hd as (H1 & H2). rewrite H1. repeat split; auto; discriminate.
 Qed.
 
+(* the key set in force is never one inherited from another user's attempt: whenever packets are being
+   processed (no _finish_userauth task is pending) it is the configured set or the one the application
+   installed during begin_auth for the CURRENT user name *)
+Theorem keys_for_current_user_fixed evs :
+  let s := run w sid true evs in
+  dead s = false -> paused s = false ->
+  ak_user s = key_src w (username s) \/ (ak_user s = None /\ username s = []).
+Proof.
+  intros s Hd Hp. destruct (fixed_invariant evs) as (D & _ & HInv). fold s in HInv.
+  destruct (inv_idle D s HInv Hd Hp) as (_ & _ & Hak & _). exact Hak.
+Qed.
+
+(* everything that is enforced on the authenticated connection is a function of the restrictions of one
+   credential that entitles the user *)
+Theorem restrictions_enforced_fixed evs :
+  let s := run w sid true evs in
+  complete s = true ->
+  exists p ko co, In p (payloads evs) /\ In (ko, co) (grants_via w sid (username s) (payloads evs) p) /\
+    (forall r, start_session s r = start_under ko co r) /\ forced_command s = forced_under ko co /\
+    pty_allowed s = pty_under ko co /\ (forall h pt, fwd_allowed s h pt = fwd_under ko co h pt).
+Proof.
+  intros s Hc. destruct (fixed_invariant evs) as (D & Hi & [_ _ _ _ Hd]). fold s in Hd.
+  unfold done_ok in Hd. rewrite Hc in Hd. destruct Hd as (_ & (p & Hp & Hg) & _ & _).
+  exists p, (key_opts s), (cert_opts s). split; [apply Hi; exact Hp|].
+  split; [eapply grants_via_mono; [exact Hi|exact Hg]|]. repeat split; reflexivity.
+Qed.
+
 (* after authentication completed nothing changes the identity or the restrictions *)
 Definition ident (s : st) := (username s, key_opts s, cert_opts s, complete s, completed_as s, auth s).
 
@@ -1275,7 +1302,7 @@ Definition w_none (abegin apw : bool) : world :=
   mkWorld (fun b => Some b) (fun _ => true) (fun u => negb (zlist_eqb u guest)) (fun _ => None)
           (fun _ _ => PFalse) (fun _ _ _ => PFalse) (fun _ => KFalse) (fun _ _ => KFalse)
           (fun _ _ => false) (fun _ _ => false) (fun _ => BBad) (fun _ _ _ => false) 0
-          true TNo false abegin apw false false false.
+          true TNo false abegin apw false false false (fun _ => true).
 
 (* 1. DESIGN 10-3: begin_auth is asynchronous; request for guest, then request for root while
       begin_auth(guest) is pending; its result is applied to self._username = root *)
@@ -1324,7 +1351,7 @@ Definition w2 : world :=
           (fun _ _ => false) (fun _ _ => false)
           (fun b => if zlist_eqb b [7] then BKey 1 else BBad)
           (fun k _ sg => (k =? 1) && zlist_eqb sg [9]) 0
-          true TNo false false false false false false.
+          true TNo false false false false false false (fun _ => true).
 Definition evs2 : list ev :=
   [Deliver (req_none alice); Run 0; Complete 0; Run 0;
    Deliver (req_none bob); Deliver (req_pk bob true [7] [9]); Run 0; Run 0; Run 1].
@@ -1341,7 +1368,7 @@ Definition w3 : world :=
           (fun u p => if zlist_eqb u alice && zlist_eqb p [1] then PTrue else PFalse)
           (fun _ _ _ => PFalse) (fun _ => KFalse) (fun _ _ => KFalse)
           (fun _ _ => false) (fun _ _ => false) (fun _ => BBad) (fun _ _ _ => false) 0
-          true TNo false false true false false false.
+          true TNo false false true false false false (fun _ => true).
 Definition evs3 : list ev :=
   [Deliver (req_pw alice [1]); Run 0; Complete 0; Run 0; Run 0; Deliver (req_none root); Complete 1; Run 1].
 
@@ -1357,7 +1384,7 @@ Definition w4 : world :=
           (fun u p => if zlist_eqb u alice && zlist_eqb p [1] then PTrue else PFalse)
           (fun _ _ _ => PFalse) (fun _ => KFalse) (fun _ _ => KFalse)
           (fun _ _ => false) (fun _ _ => false) (fun _ => BBad) (fun _ _ _ => false) 0
-          true TNo false false true false false false.
+          true TNo false false true false false false (fun _ => true).
 Definition evs4 : list ev :=
   [Deliver (req_pw alice [1]); Run 0; Complete 0; Run 0; Run 0; Deliver (req_none guest); Run 1; Complete 2; Run 1;
    Complete 1; Run 0].
@@ -1381,7 +1408,7 @@ Definition w5 : world :=
           (fun _ _ => false) (fun _ _ => false)
           (fun b => if zlist_eqb b [7] then BKey 1 else if zlist_eqb b [8] then BCert c9 else BBad)
           (fun k _ sg => (k =? 1) && zlist_eqb sg [9]) 50
-          true TNo false false false false false false.
+          true TNo false false false false false false (fun _ => true).
 Definition evs5 : list ev :=
   [Deliver (req_pk alice false [8] []); Run 0; Complete 0; Run 0; Run 0;
    Deliver (req_pk alice true [7] [9]); Run 0; Run 0].
@@ -1532,14 +1559,14 @@ Qed.
 
 Theorem accepts_publickey fixed ub alg kb sg U es k o :
   blen ub < 1024 -> blen alg < 4294967296 -> blen kb < 4294967296 -> blen sg < 4294967296 ->
-  prep w ub = Some U -> zlist_eqb U [] = false -> needs_auth w U = true ->
+  prep w ub = Some U -> zlist_eqb U [] = false -> needs_auth w U = true -> installs w U = true ->
   ak_of w (Some U) = Some es -> decode w kb = BKey k -> ak_validate es k None false = Some o ->
   let head := 50 :: sstr ub ++ sstr S_CONN ++ sstr S_PUBLICKEY ++ [1] ++ sstr alg ++ sstr kb in
   verify w k (sstr sid ++ head) sg = true ->
   let s := drive w sid fixed 12 (step w sid fixed init (Deliver (head ++ sstr sg))) in
   accepted_as U s /\ key_opts s = o /\ cert_opts s = None.
 Proof.
-  intros Hub Halg Hkb Hsg HU EU Hna Hak Hdec Hval head Hver. cbv zeta.
+  intros Hub Halg Hkb Hsg HU EU Hna Hinst Hak Hdec Hval head Hver. cbv zeta.
   set (body := [1] ++ sstr alg ++ sstr kb ++ sstr sg).
   set (p := head ++ sstr sg).
   assert (Hp : p = 50 :: sstr ub ++ sstr S_CONN ++ sstr S_PUBLICKEY ++ body).
@@ -1559,8 +1586,8 @@ Proof.
             else set_username U init)) = sf /\ (accepted_as U sf /\ key_opts sf = o /\ cert_opts sf = None)).
   { intros (sf & -> & H). exact H. }
   destruct fixed, (async_begin w) eqn:Eb; eexists; (split; [
-    norm; repeat (rewrite drive_S; norm; rewrite ?Eb; norm; rewrite ?Hna; norm; rewrite ?Hak; norm;
-                  rewrite ?Hs1; norm); reflexivity
+    norm; repeat (rewrite drive_S; norm; rewrite ?Eb; norm; rewrite ?Hna; norm; try unfold key_src;
+                  rewrite ?Hinst; norm; rewrite ?Hak; norm; rewrite ?Hs1; norm); reflexivity
   | unfold accepted_as; cbn; repeat split; reflexivity ]).
 Qed.
 
